@@ -321,7 +321,8 @@ func (u *Unit) verifyFunction(known []KnownFinding, prop string) {
 		resNames = append(resNames, fn.Signature.Results().At(i).Name())
 	}
 	for _, r := range fr.rets {
-		penv := &Env{u: u, st: r.st, old: entry, vars: map[string]Val{}, pkg: ct.Pkg}
+		// locals of the function are visible in postconditions (their value at the return)
+		penv := &Env{u: u, st: r.st, old: entry, vars: map[string]Val{}, pkg: ct.Pkg, fr: fr, locals: true}
 		for i, p := range fn.Params {
 			penv.vars[p.Name()] = args[i]
 		}
@@ -489,9 +490,39 @@ func discharge(u *Unit, o *Obligation, workDir string, timeout int, known []Know
 		q := u.queryText(o, nil, goal)
 		o.Result = runQuery(workDir, o.Name, q, timeout, waitAll)
 		if o.Result.Status == "unknown" {
-			// one retry at 6x the timeout before anything is reported
-			o.Result = runQuery(workDir, o.Name+".retry", q, timeout*6, true)
-			o.Retried = true
+			// a candidate counterexample from the quantifier-free part of the assumptions ...
+			cr, ok := candidateModel(workDir, o.Name, q)
+			if ok {
+				o.Candidate = &cr
+			}
+			switch {
+			case cr.Status == "unsat":
+				// proved from fewer assumptions (no quantified assumption used): still a proof
+				o.Result = cr
+				o.Result.Solver += " (quantifier-free assumptions only)"
+			default:
+				done := false
+				for depth := 1; depth <= 2 && !done; depth++ {
+					rr := runQuery(workDir, fmt.Sprintf("%s.rel%d", o.Name, depth), relevantQuery(q, depth), 5, false)
+					if rr.Status == "unsat" {
+						o.Result = rr
+						o.Result.Solver += fmt.Sprintf(" (assumptions within %d step(s) of the goal)", depth)
+						done = true
+					}
+				}
+				if done {
+					break
+				}
+				wr := runQuery(workDir, o.Name+".weak", stripNested(q), timeout, false)
+				if wr.Status == "unsat" {
+					o.Result = wr
+					o.Result.Solver += " (without nested-quantifier assumptions)"
+					break
+				}
+				// ... and one retry at 6x the timeout before anything is reported
+				o.Result = runQuery(workDir, o.Name+".retry", q, timeout*6, true)
+				o.Retried = true
+			}
 		}
 	}
 	switch o.Result.Status {
@@ -709,9 +740,15 @@ func reportViolation(prop string, o *Obligation, u *Unit, replayDir string, w *W
 	var b strings.Builder
 	fmt.Fprintf(&b, "property: %s\nobligation: %s\nclause: %s\nwhere: %s\nstatus: %s\nbackends: %v\n", prop, o.Name, o.Src, o.Where, o.Status, o.Result.All)
 	suffix := " no-failing-input-found"
+	var vals map[string]string
+	src := ""
 	if o.Status == "refuted" {
-		vals := parseValues(o.Result.Output)
-		fmt.Fprintf(&b, "counterexample (%s):\n", o.Result.Solver)
+		vals, src = parseValues(o.Result.Output), o.Result.Solver
+	} else if o.Candidate != nil {
+		vals, src = parseValues(o.Candidate.Output), o.Candidate.Solver+", candidate from the quantifier-free weakening of the assumptions"
+	}
+	if vals != nil {
+		fmt.Fprintf(&b, "counterexample (%s):\n", src)
 		for _, in := range o.Inputs {
 			fmt.Fprintf(&b, "  %s = %s\n", in.Name, vals[in.Term.S])
 		}
